@@ -482,6 +482,21 @@ def handleRejects (req : SExp) : Option SExp := do
     | _ => none
   pure (ofBool (rejects kind shape finite))
 
+/-- C11 constructor validation -/
+def handleCtor (req : SExp) : Option SExp := do
+  let optNat (e : SExp) : Option (Option Nat) := match e with
+    | atom "none" => some none
+    | e => e.nat?.map some
+  let spec ← match ← req.field? "spec" with
+    | [atom "pref", d] => do pure (CtorSpec.prefVector (← optNat d))
+    | [atom "constant", d] => do pure (CtorSpec.constant (← d.nat?))
+    | [atom "graddrop", d] => do pure (CtorSpec.graddrop (← optNat d))
+    | [atom "cagrad", neg] => do pure (CtorSpec.cagrad (← neg.bool?))
+    | [atom "krum", f, k] => do pure (CtorSpec.krum (← f.int?) (← k.int?))
+    | [atom "trimmed", b] => do pure (CtorSpec.trimmedMean (← b.int?))
+    | _ => none
+  pure (ofBool (ctorRejects spec))
+
 /-- C19: NashMTL schedule.  The harness supplies the solver's answers in the order the solver is invoked
     (`oracle`); matrices are referred to by index.  Reply: per call, `(recomputed? oracle-index-or-reused-weights)`.
     The model is run with a "solver" that reads the oracle by counting previous invocations, which is a
@@ -513,7 +528,7 @@ def handlers : List (String × (SExp → Option SExp)) :=
   [("typing", TypingD.handle), ("backward", AutojacD.handleBackward),
    ("mtl", AutojacD.handleMtl), ("jacobian", AutojacD.handleJacobian),
    ("history", AutojacD.handleHistory), ("transform", AutojacD.handleTransform), ("leaves", LeavesD.handle), ("liveness", LivenessD.handle), ("agg", AggD.handle),
-   ("rejects", AggD.handleRejects), ("nash", AggD.handleNash)]
+   ("rejects", AggD.handleRejects), ("ctor", AggD.handleCtor), ("nash", AggD.handleNash)]
 
 def handleLine (line : String) : String :=
   match SExp.parse line with
